@@ -439,6 +439,76 @@ def rm_mismatch_lines(rng, n, ops=("add", "sub", "mul", "div")):
     return lines
 
 
+def progcmp_lines(rng, n):
+    """comparisons (and min / max) of values PRODUCED by public operations rather than written down: a short program whose
+    last two registers carry the same semantics - casts of subnormals into formats with the same precision and a wider
+    exponent, results of scale / arithmetic / loads next to the literal of the same value, signed zeros from cancellation"""
+    lines = []
+    shapes = [((4, 8), (8, 8)), ((8, 24), (11, 24)), ((5, 11), (8, 11)), ((15, 113), (19, 113)), ((11, 53), (15, 53)), ((3, 4), (5, 4)), ((8, 70), (11, 70)), ((11, 130), (15, 130))]
+    for _ in range(n):
+        k = rng.randrange(6)
+        m = rng.choice(MODES)
+        if k <= 2:
+            (E, P), (E2, P2) = rng.choice(shapes)
+            s, g = Sem(E, P, m), Sem(E2, P2, m)
+            sub = ftok("N", rng.randrange(2), s.emin, rng.randrange(1, 2 ** (P - 1)))
+            if k == 0:      # the same subnormal by two routes
+                w = Sem(E2 + 1, P + 7, m)
+                lines.append("progcmp lit/%s/%s cast/%s/%s/0 lit/%s/%s cast/%s/%s/2 cast/%s/%s/3 cast/%s/%s/1" % (s, sub, g, m, s, sub, w, m, g, m, g, m))
+            elif k == 1:    # against a neighbouring subnormal cast the same way
+                c, sg, e, mt = parse_tok(sub)
+                mt2 = max(1, min(2 ** (P - 1) - 1, mt + rng.choice([-1, 1, 2, -2, 0])))
+                lines.append("progcmp lit/%s/%s cast/%s/%s/0 lit/%s/%s cast/%s/%s/2 cast/%s/%s/1" % (s, sub, g, m, s, ftok("N", sg, e, mt2), g, m, g, m))
+            else:           # against the smallest normal of the source format, written down in the wide format
+                lines.append("progcmp lit/%s/%s cast/%s/%s/0 lit/%s/%s" % (s, sub, g, m, g, ftok("N", rng.randrange(2), s.emin, 2 ** (P2 - 1))))
+        elif k == 3:        # scale route vs literal
+            E, P = rng.choice([(8, 24), (11, 53), (15, 113), (19, 237), (11, 130)])
+            s = Sem(E, P, m)
+            a = rand_finite(rng, s)
+            kk = rng.randrange(-2 * P, 2 * P)
+            lines.append("progcmp lit/%s/%s scale/%s/%d/0 scale/%s/%d/1 lit/%s/%s" % (s, a, m, kk, m, -kk, s, a))
+        elif k == 4:        # cancellation zero vs literal zeros
+            E, P = rand_format(rng)
+            s = Sem(E, P, m)
+            a = rand_finite(rng, s)
+            lines.append("progcmp lit/%s/%s sub/%s/0/0 lit/%s/%s" % (s, a, rng.choice(MODES), s, rng.choice(SPECIALS[:2])))
+        else:               # two arithmetic results
+            E, P = rand_format(rng)
+            s = Sem(E, P, m)
+            a, b = rand_pair(rng, s)
+            op1, op2 = rng.choice(["add", "sub", "mul", "div"]), rng.choice(["add", "sub", "mul", "div"])
+            lines.append("progcmp lit/%s/%s lit/%s/%s %s/%s/0/1 %s/%s/1/0" % (s, a, s, b, op1, m, op2, m))
+    return lines
+
+
+def rem_min_exponent_lines(rng, n):
+    """rem with both operands at (or next to) the minimum exponent of formats whose significand spans more than one word
+    (in particular precision 64k and 64k+1): a subnormal divisor whose significand fits one word against a dividend in the
+    lowest normal binade or a larger subnormal - the comparison / subtraction there sees operands of different word counts"""
+    lines = []
+    fm = [(8, 65), (11, 65), (8, 64), (11, 128), (11, 129), (15, 113), (12, 200), (19, 237), (10, 120), (10, 565), (8, 66), (8, 127)]
+    for _ in range(n):
+        E, P = rng.choice(fm)
+        s = Sem(E, P, rng.choice(MODES))
+        k = rng.randrange(4)
+        if k == 0:
+            xm, xe = 2 ** (P - 1), s.emin
+        elif k == 1:
+            xm, xe = rand_mant(rng, P), s.emin + rng.choice([0, 0, 1, 2, 5])
+        elif k == 2:
+            xm, xe = 2 ** (P - 1) + rng.randrange(1, 2 ** 20), s.emin
+        else:
+            xm, xe = rng.randrange(1, 2 ** (P - 1)), s.emin
+        yb = rng.choice([2, 3, 20, 60, 63, 64, 65, min(P - 2, 100)])
+        ym = max(1, min(2 ** (P - 1) - 1, rng.getrandbits(yb) | 1))
+        if rng.randrange(4) == 0:
+            ym = rng.choice([1, 3, 5, 7, 1000003])
+        x = ftok("N", rng.randrange(2), xe, xm)
+        y = ftok("N", rng.randrange(2), s.emin, ym)
+        lines.append("rem %s %s %s" % (s, x, y))
+    return lines
+
+
 def int_lines(rng, n):
     lines = []
     ints = [0, 1, 2, 3, 2 ** 63 - 1, 2 ** 63, 2 ** 63 + 1, 2 ** 64 - 1, 2 ** 64 - 2, 2 ** 53, 2 ** 53 + 1, 2 ** 24 + 1, 65519, 65520, 2047, 2049]
@@ -628,7 +698,7 @@ def sqrt_real(rng, n):
 
 def rand_prog(rng, max_len=12, fmts=None, allow_slow=True):
     """random expression DAG; results are fed back as operands across formats and modes"""
-    fmts = fmts or [(5, 11), (8, 8), (8, 24), (11, 53), (4, 3), (3, 4), (5, 4), (15, 64), (10, 120), (6, 70)]
+    fmts = fmts or [(5, 11), (8, 8), (8, 24), (11, 53), (4, 3), (3, 4), (5, 4), (15, 64), (10, 120), (6, 70), (11, 128), (8, 64), (9, 65)]
     regs = []  # sems
     ins = []
 
@@ -942,6 +1012,33 @@ def parse_lines(rng, n):
                 s_ = bytes(rng.randrange(0x20, 0x7f) for _ in range(L))
             except ValueError:
                 s_ = b""
+        lines.append("parse %s %s" % (s, hexs(s_)))
+    # long digit runs (hundreds of digits in one run), well-formed and with ONE foreign byte buried inside the run, also at
+    # the 19-digit group boundaries counted from either end; decimal exponents far beyond 5000 in formats with >= 17 exponent bits
+    for _ in range(max(40, n // 6)):
+        E, P = rng.choice(fm + [(17, 64), (20, 64)])
+        s = Sem(E, P, rng.choice(MODES))
+        sign = rng.choice([b"", b"-", b"+"])
+        k = rng.randrange(6)
+        run = rand_digits(rng, 31, rng.choice([60, 80, 100, 160, 400]))
+        if k == 0:
+            s_ = sign + run
+        elif k == 1:
+            s_ = sign + rand_digits(rng, 0, 5) + b"." + run
+        elif k == 2:
+            s_ = sign + run + b"." + rand_digits(rng, 31, 120) + rng.choice([b"", b"e-12", b"E+7"])
+        elif k == 3:   # one foreign byte inside a long run
+            L = len(run)
+            pos = rng.choice([rng.randrange(0, L + 1), L - 19 * rng.randrange(0, L // 19 + 1), 19 * rng.randrange(0, L // 19 + 1), 0, L])
+            pos = max(0, min(L, pos))
+            ch = rng.choice([b"+", b"+", b"-", b" ", b"_", b"x", b",", b"."])   # (not `e`: the rest of the run would be a huge exponent)
+            part = run[:pos] + ch + run[pos:]
+            s_ = rng.choice([sign + part, sign + b"1." + part, sign + part + b".5"])   # (never as an exponent: magnitudes beyond 5000 are outside the no-panic clause)
+        elif k == 4 and E >= 17:   # huge decimal exponents (the powers of ten are hundreds of words long)
+            ex = rng.choice([5300, 5400, 6000, 6136, 9500, 13502, rng.randrange(5001, 20000)])
+            s_ = sign + rand_digits(rng, 1, 20) + rng.choice([b"", b"." + rand_digits(rng, 1, 20)]) + b"e" + rng.choice([b"", b"+", b"-"]) + str(ex).encode()
+        else:          # very many fraction digits
+            s_ = sign + rand_digits(rng, 0, 3) + b"." + (b"0" * rng.randrange(0, 300)) + rand_digits(rng, 1, 40)
         lines.append("parse %s %s" % (s, hexs(s_)))
     return lines
 
